@@ -333,6 +333,9 @@ def run(rep, proj, tier):
                         "approximate; Accardi-Melnitchouk 2008 (D.26) for g1), transcribed from the literature, not from the code"]
     rep.assumptions = ["yadism's F3 observable is xF3 and its g1 observable is 2xg1 (LO operators, decided in C02.lo)",
                        "APFEL mode = exact formula with the nested integrals (g2, K2) dropped (docs/source/theory/misc.rst)"]
+    from . import state
+
+    state.check(rep, proj, "C10.state", module_filter=lambda m: m.name in ('yadism.esf.tmc', 'yadism.sf', 'yadism.esf.conv'), floor=1)
     check_vars_and_limits(rep, proj)
     check_shared(rep, proj, tier)
     js = jobs(tier)
